@@ -10,7 +10,7 @@ from .report import RuleResult
 from .rules_lattice import flagset
 from .rules_slots import Slot, optional_facts, slot_table
 from .rules_tables import binary_rows, unary_rows
-from .terms import (Attr, BoundMethod, Call, ClassRef, Comp, Const, EnumMember, Evaluator, Ext, FuncRef, Ite, Loop, New, Op,
+from .terms import (Attr, BoundMethod, Call, ClassRef, Comp, Const, EnumMember, Evaluator, Ext, FuncRef, GlobalVal, Ite, Loop, New, Op,
                     Outcome, Sym, Term, TupleT, _State, alternatives, guards_repr, norm_guards, flat_guards, walk)
 from .util import all_terms, call_name, call_recv, method_calls, none_test, outcome_terms
 
@@ -120,11 +120,26 @@ def field_narrowings(ctx: Ctx, c: ClassInfo, f: FieldInfo) -> List[Tuple[str, Tu
     conv = f.kwargs.get('converter')
     if conv is not None:
         ct = ctx.ev.expr(conv, _State(), f.cls.module, None, 0)
+        if isinstance(ct, GlobalVal):
+            ct = ct.value
         fi = ctx.ev.callee(ct) if isinstance(ct, (FuncRef, BoundMethod)) else None
+        outs_c: List[Outcome] = []
+        val = Sym('value')
+        where_c = f.where
+        cname = ast.unparse(conv)
         if fi is not None:
-            val = Sym('value')
             params = fi.params()
-            outs = ctx.ev.run(fi, {params[0]: val})
+            outs_c = ctx.ev.run(fi, {params[0]: val})
+            where_c, cname = fi.where, fi.name
+        elif not isinstance(ct, (Ext, ClassRef)):
+            # a converter that is not a plain function (operator.methodcaller, a lambda, a partial built by a factory):
+            # its result on a symbolic value
+            st0 = _State()
+            res = ctx.ev.apply(ct, (val,), (), st0, 0)
+            outs_c = [Outcome('return', res, (), st0.effects, st0.asserts, 0, None, st0.trace)]
+        if outs_c:
+            fi_name = cname
+            outs = outs_c
             for o in outs:
                 if o.kind != 'return':
                     continue
@@ -138,7 +153,7 @@ def field_narrowings(ctx: Ctx, c: ClassInfo, f: FieldInfo) -> List[Tuple[str, Tu
                 if isinstance(v, Call) and call_name(v) == 'cast' and call_recv(v) in (val, each) and v.args:
                     td = _type_desc(ctx, v.args[0], self_t)
                     if td:
-                        out.append(('converter ' + fi.name, td, True, fi.where))
+                        out.append(('converter ' + fi_name, td, True, where_c))
     # validators (decorated methods)
     for vfi in c.all_validators(f.name):
         params = vfi.params()
